@@ -401,6 +401,19 @@ where
             let edge: &mut Edge<_, _>;
 
             if self.free_edge != EdgeIndex::end() {
+                // check the endpoints before the vacant slot is taken off the free list
+                let wrong_index = if cmp::max(a.index(), b.index()) >= self.g.nodes.len() {
+                    Some(cmp::max(a.index(), b.index()))
+                } else if self.g.nodes[a.index()].weight.is_none() {
+                    Some(a.index())
+                } else if self.g.nodes[b.index()].weight.is_none() {
+                    Some(b.index())
+                } else {
+                    None
+                };
+                if let Some(i) = wrong_index {
+                    return Err(GraphError::NodeMissed(i));
+                }
                 edge_idx = self.free_edge;
                 edge = &mut self.g.edges[edge_idx.index()];
                 let _old = replace(&mut edge.weight, Some(weight));
